@@ -512,7 +512,11 @@ func (mklines *MkLines) checkLine(
 
 		mklines.checkVarassignPlist(mkline)
 		varname := mkline.Varname()
-		mklines.checkAllData.vars.Define(varname, mkline)
+		if !mklines.indentation.IsConditional() {
+			// Only these definitions are guaranteed to happen,
+			// see MkCondSimplifier.isDefined.
+			mklines.checkAllData.vars.Define(varname, mkline)
+		}
 
 	case mkline.IsInclude():
 		mklines.checkAllData.target = ""
